@@ -146,14 +146,14 @@ let grid_points step k f =
   done
 
 let () =
-  register "c13.grid" ~doc:"two-row programs: line advance -300..300 x operation advance 0..600 (every point when n > 8, every third point otherwise), n LineEncoding tuples over line_base -128..0, line_range 1..255, min_inst_len and max_ops in {1,2,4} (tuple 0 of odd seeds: -5/14/1/1, tuple 1: -128/250/1/1); instruction bytes + read-back oracle"
+  register "c13.grid" ~doc:"two-row programs: line advance -300..300 x operation advance 0..600 (every point when n > 8, every third point otherwise), n LineEncoding tuples over line_base -128..0, line_range 1..255, min_inst_len and max_ops in {1,2,4} (tuple 0 of odd seeds: -5/14/1/1, tuple 3: -128/250/1/1; odd tuples have line_range >= 128); instruction bytes + read-back oracle"
     (fun ~seed ~n emit ->
       let lazy_emit = sharded emit in
       let r = mk_rng seed in
       for t = 0 to n - 1 do
         let (lb, lr, mil, mops, ver) = if t = 0 && seed land 1 = 1 then (-5, 14, 1, 1, 4)
-          else if t = 1 then (-128, 250, 1, 1, 4)
-          else if t land 1 = 0 then pick_tuple r ~lr_lo:128 ~lr_hi:255 else pick_tuple r ~lr_lo:1 ~lr_hi:127 in
+          else if t = 3 then (-128, 250, 1, 1, 4)
+          else if t land 1 = 1 then pick_tuple r ~lr_lo:128 ~lr_hi:255 else pick_tuple r ~lr_lo:1 ~lr_hi:127 in
         let h = grid_hdr lb lr mil mops ver in
         grid_points (if n <= 8 then 3 else 1) t (fun ladv oadv ->
           lazy_emit (fun () ->
